@@ -74,8 +74,8 @@ package s2
 //@   ensures [position] forall k int :: 0 <= k && k < 4 ==> result[k].ChildPosition(ci.Level()+1) == k
 
 //@ func sizeIJ(level int) int
-//@   requires vcLevelOK(level)
-//@   ensures result == 1 << uint(30-level) && 1 <= result && result <= 1<<30
+//@   requires -1 <= level && level <= 30
+//@   ensures result == 1 << uint(30-level) && 1 <= result && result <= 1<<31
 
 //@ func (ci CellID) RangeMin() CellID
 //@   ensures [def] uint64(result) == vcLo(ci)
